@@ -126,6 +126,7 @@ type c15bWorld struct {
 	clients map[int]*c15bClient
 	allowed map[string][2]uint64 // per user: bytes the server logged as allowed
 	handed  map[string][2]uint64 // per user: sum of cleared snapshots
+	inflight map[string][2]uint64 // per user: reports handed to the stats server that have not returned yet
 	kicked  map[string]int       // 1 while a kick has been acknowledged and no report of that user was refused since
 	kickBase map[string]int      // refusals seen when the pending kick was issued
 	refused map[string]int
@@ -137,7 +138,17 @@ type c15bWorld struct {
 type c15bLogger struct{ w *c15bWorld }
 
 func (l *c15bLogger) LogTraffic(id string, tx, rx uint64) bool {
+	// a poll may run between the stats server's update and the bookkeeping below (the logger's
+	// mutex is a yield point): reports in flight count towards the upper bound
+	f := l.w.inflight[id]
+	f[0] += tx
+	f[1] += rx
+	l.w.inflight[id] = f
 	ok := l.w.stats.LogTraffic(id, tx, rx)
+	f = l.w.inflight[id]
+	f[0] -= tx
+	f[1] -= rx
+	l.w.inflight[id] = f
 	if ok {
 		a := l.w.allowed[id]
 		a[0] += tx
@@ -249,7 +260,7 @@ func (w *c15bWorld) get(path string) (int, []byte) {
 
 func execC15b(x *hysim.Run) {
 	sc := x.Script
-	w := &c15bWorld{x: x, clients: map[int]*c15bClient{}, allowed: map[string][2]uint64{}, handed: map[string][2]uint64{}, kicked: map[string]int{}, kickBase: map[string]int{}, refused: map[string]int{}}
+	w := &c15bWorld{x: x, clients: map[int]*c15bClient{}, allowed: map[string][2]uint64{}, handed: map[string][2]uint64{}, inflight: map[string][2]uint64{}, kicked: map[string]int{}, kickBase: map[string]int{}, refused: map[string]int{}}
 	w.fab = simnet.NewFabric(x, simnet.LinkCfg{
 		Loss: uint64(sc.Get("net_loss", 0)), MinDelay: time.Duration(sc.Get("net_delay_us", 500)) * time.Microsecond, Jitter: 200 * time.Microsecond,
 	})
@@ -512,7 +523,7 @@ func (w *c15bWorld) poll(clear bool) {
 	} else {
 		// a non-clearing snapshot shows exactly what has been allowed and not yet handed out
 		for u, e := range snap {
-			if e.Tx+w.handed[u][0] > w.allowed[u][0] || e.Rx+w.handed[u][1] > w.allowed[u][1] {
+			if e.Tx+w.handed[u][0] > w.allowed[u][0]+w.inflight[u][0] || e.Rx+w.handed[u][1] > w.allowed[u][1]+w.inflight[u][1] {
 				w.x.Violate("bytes-overcounted", "user %s: snapshot tx=%d rx=%d plus handed-out tx=%d rx=%d exceeds what the server logged as allowed (tx=%d rx=%d)", u, e.Tx, e.Rx, w.handed[u][0], w.handed[u][1], w.allowed[u][0], w.allowed[u][1])
 			}
 		}
